@@ -109,15 +109,33 @@ nng_init(const nng_init_params *params)
 
 	init_count++;
 
-	if (
-		((rv = nni_alloc_set(init_params.malloc_fn, init_params.calloc_fn, init_params.free_fn)) != 0) ||
-		((rv = nni_plat_init(&init_params)) != 0) ||
-	    ((rv = nni_taskq_sys_init(&init_params)) != 0) ||
-	    ((rv = nni_reap_sys_init()) != 0) ||
-	    ((rv = nni_aio_sys_init(&init_params)) != 0) ||
-	    ((rv = nni_tls_sys_init()) != 0)) {
+	// A failure undoes exactly the subsystems that were brought up:
+	// nng_fini() assumes that all of them exist.
+	if (((rv = nni_alloc_set(init_params.malloc_fn, init_params.calloc_fn,
+	          init_params.free_fn)) != 0) ||
+	    ((rv = nni_plat_init(&init_params)) != 0)) {
+		goto fail;
+	}
+	if ((rv = nni_taskq_sys_init(&init_params)) != 0) {
+		goto fail_plat;
+	}
+	if ((rv = nni_reap_sys_init()) != 0) {
+		goto fail_taskq;
+	}
+	if ((rv = nni_aio_sys_init(&init_params)) != 0) {
+		goto fail_reap;
+	}
+	if ((rv = nni_tls_sys_init()) != 0) {
+		nni_aio_sys_fini();
+	fail_reap:
+		nni_reap_sys_fini();
+	fail_taskq:
+		nni_taskq_sys_fini();
+	fail_plat:
+		nni_plat_fini();
+	fail:
+		init_count--;
 		nni_atomic_flag_reset(&init_busy);
-		nng_fini();
 		return (rv);
 	}
 
